@@ -38,9 +38,12 @@
 (*   kind "lig": ligature f^(n-1) i, n components; pat = arrangement of    *)
 (*     LAST / STORE in the action list ("L" LAST only, "LS" LAST+STORE,    *)
 (*     "SM" a STORE in the middle, "SA" STORE on every component, "N" no   *)
-(*     flag at all, "NS" STORE without LAST); da = the entry that performs *)
-(*     the action also has DONT_ADVANCE; fda = failure transitions         *)
-(*     re-dispatch through DONT_ADVANCE; sk = a skipped (mark) class.      *)
+(*     flag at all, "NS" STORE without LAST); da = 1: the entry that       *)
+(*     performs the action also has DONT_ADVANCE, da = 2: the last         *)
+(*     component is pushed by a DONT_ADVANCE entry and pushed again (one   *)
+(*     component) by the performing entry of the next state; fda = failure *)
+(*     transitions re-dispatch through DONT_ADVANCE; sk = a skipped (mark) *)
+(*     class.                                                              *)
 (*   kind "ctx": contextual, sub = which glyph is substituted, da = a      *)
 (*     DONT_ADVANCE step, fmt = lookup table format (11 = format 10 with   *)
 (*     one byte units).  kind "nc": noncontextual, one per lookup format.  *)
@@ -99,7 +102,7 @@ IsLkp(x) ==
         /\ x = Chain(tbl, ks, t)
 
 IsMx(x) ==
-  \/ \E n \in 2 .. 4 : \E p \in LigPatterns : \E da \in {0, 1} : \E fda \in {0, 1} : \E sk \in {0, 1} :
+  \/ \E n \in 2 .. 4 : \E p \in LigPatterns : \E da \in {0, 1, 2} : \E fda \in {0, 1} : \E sk \in {0, 1} :
         x = [fam |-> "mx", kind |-> "lig", n |-> n, pat |-> p, da |-> da, fda |-> fda, sk |-> sk]
   \/ \E s \in CtxSubs : \E da \in {0, 1} : \E f \in {2, 6, 8, 11} :
         x = [fam |-> "mx", kind |-> "ctx", sub |-> s, da |-> da, fmt |-> f]
